@@ -143,11 +143,14 @@ func (r *renderer) expr(e *E, sp bool) {
 		r.emit(e.S, true)
 		r.sub(e.A[1], p+1, true)
 	case "cond":
+		// Conditional = Expression "?" Expression ":" Expression: a conditional in
+		// either result position needs no parentheses (p ? a : q ? b : c is
+		// p ? a : (q ? b : c)); one in the predicate position does
 		r.sub(e.A[0], 1, sp)
 		r.emit("?", true)
-		r.sub(e.A[1], 1, true)
+		r.sub(e.A[1], 0, true)
 		r.emit(":", true)
-		r.sub(e.A[2], 1, true)
+		r.sub(e.A[2], 0, true)
 	case "tuple":
 		r.emit("[", sp)
 		r.push(true)
